@@ -4,12 +4,12 @@
    exactly one byte has been altered.
    Part B (directory level): what open_dir does with a chunk that contains a
    damaged record, and with a journal whose middle chunk is missing. *)
-From Coq Require Import List NArith Lia Bool Arith.
+From Coq Require Import List NArith Lia Bool Arith Sorted.
 From Coq.Strings Require Import Byte.
 From RaftLog Require Import Base.Bytes Base.Crc32 Model.Types Model.Codec Model.Cache
   Model.Core Model.Recover.
 From RaftLog Require Proofs.Crc32Facts.
-From RaftLog Require Import Proofs.CodecFacts.
+From RaftLog Require Import Proofs.CodecFacts Proofs.ScanFacts.
 Import ListNotations.
 
 (* ================================================================== *)
@@ -357,8 +357,538 @@ Proof.
       subst pre s. rewrite app_nil_r, <- !app_assoc. reflexivity.
 Qed.
 
+
+(* ================================================================== *)
+(* Part B.0: scanning a sequence of encoded records                    *)
+(* ================================================================== *)
+
+Lemma encs_length_ge rs : length rs <= length (encs rs).
+Proof.
+  induction rs as [|r rs IH]; [apply Nat.le_refl|].
+  rewrite encs_cons, app_length. pose proof (enc_record_min_len r) as H.
+  cbn [length]. lia.
+Qed.
+
+Lemma encs_length_pos rs : rs <> [] -> 0 < length (encs rs).
+Proof.
+  intros H. destruct rs as [|r rs]; [congruence|].
+  pose proof (encs_length_ge (r :: rs)) as L. cbn [length] in L. lia.
+Qed.
+
+(* a damaged record after well-formed ones stops the scan right there *)
+Lemma scan_file_encs_invalid rs x : Forall wf_record rs -> x <> [] ->
+  dec_record x = DInvalid ->
+  scan_file (encs rs ++ x) = (sized rs, x, SInvalid).
+Proof.
+  intros W Hx D. rewrite (scan_file_encs_app rs x W), (scan_file_invalid x Hx D).
+  now rewrite app_nil_r.
+Qed.
+
+Lemma last_cons {A} (a : A) l d : last (a :: l) d = last l a.
+Proof.
+  revert a d. induction l as [|b l IH]; intros a d; [reflexivity|].
+  change (last (a :: b :: l) d) with (last (b :: l) d).
+  rewrite (IH b d). symmetry. apply IH.
+Qed.
+
+Lemma ends_from_last rs : forall s d,
+  last (ends_from s (map rec_size rs)) d =
+  match rs with [] => d | _ => (s + N.of_nat (length (encs rs)))%N end.
+Proof.
+  induction rs as [|r rs IH]; intros s d; [reflexivity|].
+  cbn [map ends_from]. rewrite last_cons, IH.
+  rewrite encs_cons, app_length. unfold rec_size.
+  destruct rs as [|r' rs'].
+  - cbn [encs map concat length]. lia.
+  - lia.
+Qed.
+
+(* ================================================================== *)
+(* Part B.1: one step of the open loop                                 *)
+(* ================================================================== *)
+
+(* the step of [open_loop] for a chunk that is kept (not the record-less
+   newest chunk) *)
+Definition open_one (cfg : config) (f : file) (a : open_acc) : open_acc + (err * disk) :=
+  let sm0 := mkSM (m_rs (oa_sm a)) (m_log (oa_sm a))
+                  (cache_set_evictable (m_cache (oa_sm a)) (oa_last a)) in
+  let id := f_id f in
+  let gap := match oa_prev_end a with Some p => negb (N.eqb p id) | None => false end in
+  if gap then inr (EGap, oa_disk a)
+  else
+    match chunk_open cfg id (f_data f) with
+    | inr e => inr (e, oa_disk a)
+    | inl oc =>
+      let d1 := if oc_truncated oc
+                then disk_put (mkFile id (oc_data oc) (N.of_nat (length (oc_data oc)))) (oa_disk a)
+                else oa_disk a in
+      match replay sm0 id id (oc_records oc) (ck_ends (oc_chunk oc)) with
+      | (s1, Some e) => inr (e, d1)
+      | (s1, None) =>
+        inl (mkOA s1 (closed_insert (mkClosed (oc_chunk oc) (m_rs s1) (oc_truncated oc)) (oa_closed a))
+                  (Some (ck_end (oc_chunk oc))) (r_last (m_rs s1)) d1)
+      end
+    end.
+
+Definition open_bind (x : open_acc + (err * disk)) (k : open_acc -> open_acc + (err * disk)) :=
+  match x with inl a => k a | inr e => inr e end.
+
+Lemma open_loop_cons cfg f rest a : rest <> [] ->
+  open_loop cfg (f :: rest) a = open_bind (open_one cfg f a) (open_loop cfg rest).
+Proof.
+  intros H. unfold open_bind, open_one. cbn [open_loop].
+  destruct (match oa_prev_end a with Some p => negb (N.eqb p (f_id f)) | None => false end);
+    [reflexivity|].
+  destruct (chunk_open cfg (f_id f) (f_data f)) as [oc|e]; [|reflexivity].
+  destruct (ck_ends (oc_chunk oc)) as [|x xs]; destruct rest as [|g rest]; try congruence;
+    destruct (replay _ _ _ _ _) as [s1 [e|]]; reflexivity.
+Qed.
+
+Lemma open_loop_cons_ends cfg f rest a oc :
+  chunk_open cfg (f_id f) (f_data f) = inl oc -> ck_ends (oc_chunk oc) <> [] ->
+  open_loop cfg (f :: rest) a = open_bind (open_one cfg f a) (open_loop cfg rest).
+Proof.
+  intros Hc Hne. destruct rest as [|g rest]; [|apply open_loop_cons; congruence].
+  unfold open_bind, open_one. cbn [open_loop].
+  destruct (match oa_prev_end a with Some p => negb (N.eqb p (f_id f)) | None => false end);
+    [reflexivity|].
+  rewrite Hc.
+  destruct (ck_ends (oc_chunk oc)) as [|x xs]; [congruence|].
+  destruct (replay _ _ _ _ _) as [s1 [e|]]; reflexivity.
+Qed.
+
+Lemma open_loop_gap cfg g rest a p :
+  oa_prev_end a = Some p -> p <> f_id g -> open_loop cfg (g :: rest) a = inr (EGap, oa_disk a).
+Proof.
+  intros Hp Hne. cbn [open_loop]. rewrite Hp.
+  destruct (N.eqb_spec p (f_id g)) as [E|E]; [congruence|]. reflexivity.
+Qed.
+
+(* ---- chunks that scan to the end: no truncation, the disk is not touched ---- *)
+Definition scans_end (f : file) : Prop := snd (scan_file (f_data f)) = SEnd.
+
+Lemma chunk_open_send cfg id data : snd (scan_file data) = SEnd ->
+  exists oc, chunk_open cfg id data = inl oc /\ oc_truncated oc = false.
+Proof.
+  intros H. unfold chunk_open. destruct (scan_file data) as [[recs rest] e].
+  cbn [snd] in H. subst e. eexists. split; reflexivity.
+Qed.
+
+Lemma open_one_send_disk cfg f a : scans_end f ->
+  match open_one cfg f a with
+  | inl a' => oa_disk a' = oa_disk a
+  | inr (e, d) => d = oa_disk a
+  end.
+Proof.
+  intros H. destruct (chunk_open_send cfg (f_id f) (f_data f) H) as [oc [Hc Ht]].
+  unfold open_one.
+  destruct (match oa_prev_end a with Some p => negb (N.eqb p (f_id f)) | None => false end);
+    [reflexivity|].
+  rewrite Hc, Ht.
+  destruct (replay _ _ _ _ _) as [s1 [e|]]; reflexivity.
+Qed.
+
+(* ================================================================== *)
+(* Part B.2: a damaged record makes open fail, nothing is modified     *)
+(* ================================================================== *)
+
+(* the chunk at which Chunk::open itself fails *)
+Lemma open_loop_fails_here cfg f' post a e0 :
+  chunk_open cfg (f_id f') (f_data f') = inr e0 ->
+  exists e, open_loop cfg (f' :: post) a = inr (e, oa_disk a).
+Proof.
+  intros Hc. cbn [open_loop].
+  destruct (match oa_prev_end a with Some p => negb (N.eqb p (f_id f')) | None => false end);
+    [eexists; reflexivity|].
+  rewrite Hc. eexists; reflexivity.
+Qed.
+
+Lemma open_loop_refuses cfg f' post e0 :
+  chunk_open cfg (f_id f') (f_data f') = inr e0 ->
+  forall pre, Forall scans_end pre ->
+  forall a, exists e, open_loop cfg (pre ++ f' :: post) a = inr (e, oa_disk a).
+Proof.
+  intros Hc pre. induction pre as [|g pre IH]; intros Hpre a.
+  - exact (open_loop_fails_here cfg f' post a e0 Hc).
+  - inversion Hpre as [|? ? Hg Hpre']; subst.
+    cbn [app]. rewrite open_loop_cons by (destruct pre; discriminate).
+    pose proof (open_one_send_disk cfg g a Hg) as Hd.
+    destruct (open_one cfg g a) as [a'|[e d]]; cbn [open_bind].
+    + destruct (IH Hpre' a') as [e He]. exists e. rewrite He, Hd. reflexivity.
+    + exists e. now rewrite Hd.
+Qed.
+
+(* Every chunk before the damaged one scans to its end (so it is opened
+   without truncation) and Chunk::open refuses the damaged chunk. Then open
+   fails (with a gap, validation or decode error) and the directory is exactly
+   as it was. Holds whether or not the damaged chunk is the newest. *)
+Theorem C09_open_refuses_chunk : forall cfg pre f' post e0,
+  Forall scans_end pre ->
+  chunk_open cfg (f_id f') (f_data f') = inr e0 ->
+  exists e, open_dir cfg (pre ++ f' :: post) = OpenErr e (pre ++ f' :: post).
+Proof.
+  intros cfg pre f' post e0 Hpre Hc. unfold open_dir.
+  destruct (open_loop_refuses cfg f' post e0 Hc pre Hpre
+              (mkOA (sm_new cfg) [] None None (pre ++ f' :: post))) as [e He].
+  rewrite He. exists e. reflexivity.
+Qed.
+
+(* Chunk::open refuses: a rejected record unless (zeros follow and truncation is enabled) *)
+Lemma chunk_open_invalid cfg id data recs rest :
+  scan_file data = (recs, rest, SInvalid) -> all_zero rest && c_truncate cfg = false ->
+  chunk_open cfg id data = inr EDecodeInvalid.
+Proof. intros Hs Hz. unfold chunk_open. rewrite Hs, Hz. reflexivity. Qed.
+
+(* ... an incomplete record when truncation is disabled *)
+Lemma chunk_open_eof_notrunc cfg id data recs rest :
+  scan_file data = (recs, rest, SEof) -> c_truncate cfg = false ->
+  chunk_open cfg id data = inr EDecodeEof.
+Proof. intros Hs Hz. unfold chunk_open. rewrite Hs, Hz. reflexivity. Qed.
+
+(* the damaged chunk scans to a record that is rejected as InvalidData and the
+   bytes from that record on are not all zero (or truncation is disabled) *)
+Theorem C09_open_refuses_gen : forall cfg pre f' post recs rest,
+  Forall scans_end pre ->
+  scan_file (f_data f') = (recs, rest, SInvalid) ->
+  all_zero rest && c_truncate cfg = false ->
+  exists e, open_dir cfg (pre ++ f' :: post) = OpenErr e (pre ++ f' :: post).
+Proof.
+  intros cfg pre f' post recs rest Hpre Hs Hz.
+  exact (C09_open_refuses_chunk cfg pre f' post _ Hpre
+           (chunk_open_invalid cfg (f_id f') (f_data f') recs rest Hs Hz)).
+Qed.
+
+Theorem C09_open_refuses : forall cfg pre f post data' recs rest,
+  Forall scans_end pre ->
+  scan_file data' = (recs, rest, SInvalid) -> all_zero rest = false ->
+  exists e, open_dir cfg (pre ++ mkFile (f_id f) data' (f_synced f) :: post)
+            = OpenErr e (pre ++ mkFile (f_id f) data' (f_synced f) :: post).
+Proof.
+  intros cfg pre f post data' recs rest Hpre Hs Hz.
+  apply (C09_open_refuses_gen cfg pre (mkFile (f_id f) data' (f_synced f)) post recs rest Hpre Hs).
+  now rewrite Hz.
+Qed.
+
+(* ================================================================== *)
+(* Part B.3: clean images; a missing middle chunk                      *)
+(* ================================================================== *)
+
+Definition clean_file (f : file) : Prop :=
+  exists rs, rs <> [] /\ Forall wf_record rs /\ f_data f = encs rs.
+
+Definition file_end (f : file) : N := (f_id f + N.of_nat (length (f_data f)))%N.
+
+(* consecutive chunk files abut: the id of a chunk is the end offset of its
+   predecessor *)
+Fixpoint abut (fs : list file) : Prop :=
+  match fs with
+  | f :: r => match r with g :: _ => f_id g = file_end f | [] => True end /\ abut r
+  | [] => True
+  end.
+
+Definition clean_files (fs : list file) : Prop := Forall clean_file fs /\ abut fs.
+
+Lemma abut_mid xs x y ys : abut (xs ++ x :: y :: ys) -> f_id y = file_end x.
+Proof.
+  induction xs as [|a xs IH]; cbn [app].
+  - intros [H _]. exact H.
+  - intros [_ H]. exact (IH H).
+Qed.
+
+Lemma clean_file_nonempty f : clean_file f -> 0 < length (f_data f).
+Proof. intros [rs [Hne [_ E]]]. rewrite E. now apply encs_length_pos. Qed.
+
+Lemma clean_file_lt f : clean_file f -> (f_id f < file_end f)%N.
+Proof. intros H. apply clean_file_nonempty in H. unfold file_end. lia. Qed.
+
+(* clean images are strictly sorted by chunk id *)
+Lemma abut_lt_all f fs : Forall clean_file (f :: fs) -> abut (f :: fs) ->
+  Forall (fun g => (f_id f < f_id g)%N) fs.
+Proof.
+  revert f. induction fs as [|g fs IH]; intros f HF HA; [constructor|].
+  inversion HF as [|? ? Hf HF']; subst.
+  destruct HA as [E HA'].
+  pose proof (clean_file_lt f Hf) as L.
+  constructor; [lia|].
+  specialize (IH g HF' HA').
+  eapply Forall_impl; [|exact IH]. cbn beta. intros h Hh. lia.
+Qed.
+
+Theorem clean_files_sorted fs : clean_files fs ->
+  StronglySorted (fun f g => (f_id f < f_id g)%N) fs.
+Proof.
+  intros [HF HA]. induction fs as [|f fs IH]; [constructor|].
+  constructor.
+  - apply IH; [now inversion HF|exact (proj2 HA)].
+  - now apply abut_lt_all.
+Qed.
+
+Lemma clean_file_scans_end f : clean_file f -> scans_end f.
+Proof.
+  intros [rs [_ [W E]]]. unfold scans_end. rewrite E, scan_encs by assumption. reflexivity.
+Qed.
+
+Lemma chunk_open_encs cfg id rs : Forall wf_record rs ->
+  chunk_open cfg id (encs rs) =
+  inl (mkOC (mkChunk id (ends_from id (map rec_size rs))) rs false (encs rs)).
+Proof.
+  intros W. unfold chunk_open. rewrite scan_encs by assumption.
+  rewrite sized_fst, sized_snd. reflexivity.
+Qed.
+
+Lemma chunk_open_clean cfg f : clean_file f ->
+  exists oc, chunk_open cfg (f_id f) (f_data f) = inl oc /\ oc_truncated oc = false /\
+             ck_ends (oc_chunk oc) <> [] /\ ck_end (oc_chunk oc) = file_end f.
+Proof.
+  intros [rs [Hne [W E]]]. rewrite E, chunk_open_encs by assumption.
+  eexists. split; [reflexivity|]. cbn [oc_truncated oc_chunk ck_ends]. split; [reflexivity|].
+  split.
+  - destruct rs as [|r rs]; [congruence|]. discriminate.
+  - unfold ck_end, file_end. cbn [ck_ends ck_id]. rewrite ends_from_last, E.
+    destruct rs; [congruence|reflexivity].
+Qed.
+
+Lemma open_loop_cons_clean cfg f rest a : clean_file f ->
+  open_loop cfg (f :: rest) a = open_bind (open_one cfg f a) (open_loop cfg rest).
+Proof.
+  intros H. destruct (chunk_open_clean cfg f H) as [oc [Hc [_ [Hne _]]]].
+  exact (open_loop_cons_ends cfg f rest a oc Hc Hne).
+Qed.
+
+Lemma open_one_clean_prev_end cfg f a a' : clean_file f ->
+  open_one cfg f a = inl a' -> oa_prev_end a' = Some (file_end f).
+Proof.
+  intros H. destruct (chunk_open_clean cfg f H) as [oc [Hc [_ [_ He]]]].
+  unfold open_one.
+  destruct (match oa_prev_end a with Some p => negb (N.eqb p (f_id f)) | None => false end);
+    [discriminate|].
+  rewrite Hc.
+  destruct (replay _ _ _ _ _) as [s1 [e|]]; [discriminate|].
+  intros E. injection E as E. subst a'. cbn [oa_prev_end]. now rewrite He.
+Qed.
+
+Lemma open_loop_app_clean cfg fs gs : Forall clean_file fs -> forall a,
+  open_loop cfg (fs ++ gs) a = open_bind (open_loop cfg fs a) (open_loop cfg gs).
+Proof.
+  induction fs as [|f fs IH]; intros HF a; [reflexivity|].
+  inversion HF as [|? ? Hf HF']; subst.
+  cbn [app]. rewrite !open_loop_cons_clean by assumption.
+  destruct (open_one cfg f a) as [a'|e]; cbn [open_bind]; [|reflexivity].
+  exact (IH HF' a').
+Qed.
+
+Lemma open_loop_send_disk cfg fs : Forall clean_file fs -> forall a,
+  match open_loop cfg fs a with
+  | inl a' => oa_disk a' = oa_disk a
+  | inr (e, d) => d = oa_disk a
+  end.
+Proof.
+  induction fs as [|f fs IH]; intros HF a; [reflexivity|].
+  inversion HF as [|? ? Hf HF']; subst.
+  rewrite open_loop_cons_clean by assumption.
+  pose proof (open_one_send_disk cfg f a (clean_file_scans_end f Hf)) as Hd.
+  destruct (open_one cfg f a) as [a'|[e d]]; cbn [open_bind]; [|exact Hd].
+  specialize (IH HF' a').
+  destruct (open_loop cfg fs a') as [a''|[e d]]; congruence.
+Qed.
+
+Lemma open_loop_clean_prev_end cfg fs l a a' : Forall clean_file fs -> clean_file l ->
+  open_loop cfg (fs ++ [l]) a = inl a' -> oa_prev_end a' = Some (file_end l).
+Proof.
+  intros HF Hl. rewrite open_loop_app_clean by assumption.
+  destruct (open_loop cfg fs a) as [a1|e]; cbn [open_bind]; [|discriminate].
+  rewrite open_loop_cons_clean by assumption.
+  destruct (open_one cfg l a1) as [a2|e] eqn:E1; cbn [open_bind open_loop]; [|discriminate].
+  intros E. injection E as E. subst a2.
+  exact (open_one_clean_prev_end cfg l a1 a' Hl E1).
+Qed.
+
+(* the accumulator with another directory image *)
+Definition oa_with_disk (a : open_acc) (d : disk) : open_acc :=
+  mkOA (oa_sm a) (oa_closed a) (oa_prev_end a) (oa_last a) d.
+
+Definition res_with_disk (x : open_acc + (err * disk)) (d : disk) : open_acc + (err * disk) :=
+  match x with inl a => inl (oa_with_disk a d) | inr (e, _) => inr (e, d) end.
+
+Lemma open_one_with_disk cfg f a d : scans_end f ->
+  open_one cfg f (oa_with_disk a d) = res_with_disk (open_one cfg f a) d.
+Proof.
+  intros H. destruct (chunk_open_send cfg (f_id f) (f_data f) H) as [oc [Hc Ht]].
+  unfold open_one, oa_with_disk.
+  cbn [oa_sm oa_closed oa_prev_end oa_last oa_disk].
+  destruct (match oa_prev_end a with Some p => negb (N.eqb p (f_id f)) | None => false end);
+    [reflexivity|].
+  rewrite Hc, Ht.
+  destruct (replay _ _ _ _ _) as [s1 [e|]]; reflexivity.
+Qed.
+
+(* without truncation the directory image is only threaded through *)
+Lemma open_loop_with_disk cfg fs d : Forall clean_file fs -> forall a,
+  open_loop cfg fs (oa_with_disk a d) = res_with_disk (open_loop cfg fs a) d.
+Proof.
+  induction fs as [|f fs IH]; intros HF a; [reflexivity|].
+  inversion HF as [|? ? Hf HF']; subst.
+  rewrite !open_loop_cons_clean by assumption.
+  rewrite open_one_with_disk by now apply clean_file_scans_end.
+  destruct (open_one cfg f a) as [a'|[e d0]]; cbn [open_bind res_with_disk]; [|reflexivity].
+  exact (IH HF' a').
+Qed.
+
+Definition acc0 (cfg : config) (d : disk) : open_acc := mkOA (sm_new cfg) [] None None d.
+
+Lemma open_dir_err cfg d e d' :
+  open_loop cfg d (acc0 cfg d) = inr (e, d') -> open_dir cfg d = OpenErr e d'.
+Proof. intros H. unfold open_dir. fold (acc0 cfg d). now rewrite H. Qed.
+
+Lemma mm_pre_clean pre f post : clean_files (pre ++ f :: post) -> Forall clean_file pre.
+Proof. intros [HF _]. apply Forall_app in HF. tauto. Qed.
+
+(* after the chunks before the missing one, the next chunk does not start
+   where the previous one ended *)
+Lemma mm_gap_after_pre cfg pre f post a :
+  clean_files (pre ++ f :: post) -> pre <> [] -> post <> [] ->
+  open_loop cfg pre (acc0 cfg (pre ++ post)) = inl a ->
+  open_loop cfg post a = inr (EGap, pre ++ post).
+Proof.
+  intros Hclean Hpre Hpost Ha.
+  pose proof (mm_pre_clean _ _ _ Hclean) as HFpre.
+  destruct Hclean as [HF HA].
+  destruct (exists_last Hpre) as [pre' [l El]].
+  destruct post as [|g post']; [congruence|].
+  assert (Hf : clean_file f).
+  { apply Forall_app in HF. destruct HF as [_ HF]. now inversion HF. }
+  assert (E2 : f_id g = file_end f).
+  { exact (abut_mid _ _ _ _ HA). }
+  pose proof (open_loop_send_disk cfg pre HFpre (acc0 cfg (pre ++ g :: post'))) as Hd.
+  rewrite Ha in Hd. cbn [acc0 oa_disk] in Hd.
+  subst pre.
+  assert (E1 : f_id f = file_end l).
+  { rewrite <- app_assoc in HA. cbn [app] in HA. exact (abut_mid _ _ _ _ HA). }
+  assert (Hp : oa_prev_end a = Some (file_end l)).
+  { apply Forall_app in HFpre. destruct HFpre as [H1 H2].
+    pose proof (Forall_inv H2) as Hl.
+    exact (open_loop_clean_prev_end cfg pre' l _ a H1 Hl Ha). }
+  rewrite (open_loop_gap cfg g post' a (file_end l) Hp), Hd; [reflexivity|].
+  pose proof (clean_file_lt f Hf). lia.
+Qed.
+
+(* C09, missing middle chunk: if the chunks before the missing one replay
+   without error, the open fails with the gap error; nothing is modified *)
+Theorem C09_middle_missing : forall cfg pre f post a,
+  clean_files (pre ++ f :: post) -> pre <> [] -> post <> [] ->
+  open_loop cfg pre (acc0 cfg (pre ++ post)) = inl a ->
+  open_dir cfg (pre ++ post) = OpenErr EGap (pre ++ post).
+Proof.
+  intros cfg pre f post a Hclean Hpre Hpost Ha. apply open_dir_err.
+  rewrite (open_loop_app_clean cfg pre post (mm_pre_clean _ _ _ Hclean)), Ha. cbn [open_bind].
+  exact (mm_gap_after_pre cfg pre f post a Hclean Hpre Hpost Ha).
+Qed.
+
+(* whatever happens in the earlier chunks, the open is refused and nothing is modified *)
+Theorem C09_middle_missing_refused : forall cfg pre f post,
+  clean_files (pre ++ f :: post) -> pre <> [] -> post <> [] ->
+  exists e, open_dir cfg (pre ++ post) = OpenErr e (pre ++ post).
+Proof.
+  intros cfg pre f post Hclean Hpre Hpost.
+  pose proof (mm_pre_clean _ _ _ Hclean) as HFpre.
+  destruct (open_loop cfg pre (acc0 cfg (pre ++ post))) as [a|[e d]] eqn:Ha.
+  - exists EGap. exact (C09_middle_missing cfg pre f post a Hclean Hpre Hpost Ha).
+  - exists e. apply open_dir_err.
+    rewrite (open_loop_app_clean cfg pre post HFpre), Ha. cbn [open_bind].
+    pose proof (open_loop_send_disk cfg pre HFpre (acc0 cfg (pre ++ post))) as Hd.
+    rewrite Ha in Hd. cbn [acc0 oa_disk] in Hd. now rewrite Hd.
+Qed.
+
+(* if the complete image opened, the image without the middle chunk is
+   refused with the gap error *)
+Theorem C09_middle_missing_of_open : forall cfg pre f post y,
+  clean_files (pre ++ f :: post) -> pre <> [] -> post <> [] ->
+  open_dir cfg (pre ++ f :: post) = OpenOk y ->
+  open_dir cfg (pre ++ post) = OpenErr EGap (pre ++ post).
+Proof.
+  intros cfg pre f post y Hclean Hpre Hpost Hy.
+  pose proof (mm_pre_clean _ _ _ Hclean) as HFpre.
+  unfold open_dir in Hy. fold (acc0 cfg (pre ++ f :: post)) in Hy.
+  rewrite (open_loop_app_clean cfg pre (f :: post) HFpre) in Hy.
+  destruct (open_loop cfg pre (acc0 cfg (pre ++ f :: post))) as [a|[e d]] eqn:Ha;
+    cbn [open_bind] in Hy; [|discriminate Hy].
+  pose proof (open_loop_with_disk cfg pre (pre ++ post) HFpre (acc0 cfg (pre ++ f :: post))) as Hw.
+  rewrite Ha in Hw. cbn [res_with_disk] in Hw.
+  exact (C09_middle_missing cfg pre f post _ Hclean Hpre Hpost Hw).
+Qed.
+
+(* ---- Part A and Part B together: a rejected record in a clean chunk ---- *)
+Theorem C09_open_refuses_record : forall cfg pre id synced post rs x,
+  Forall scans_end pre -> Forall wf_record rs ->
+  dec_record x = DInvalid -> all_zero x = false ->
+  exists e, open_dir cfg (pre ++ mkFile id (encs rs ++ x) synced :: post)
+            = OpenErr e (pre ++ mkFile id (encs rs ++ x) synced :: post).
+Proof.
+  intros cfg pre id synced post rs x Hpre W D Hz.
+  apply (C09_open_refuses_gen cfg pre (mkFile id (encs rs ++ x) synced) post (sized rs) x Hpre);
+    [|now rewrite Hz].
+  cbn [f_data]. apply scan_file_encs_invalid; try assumption.
+  intros E. subst x. discriminate Hz.
+Qed.
+
+(* ================================================================== *)
+(* Part B.4: the hypotheses are satisfiable; the first chunk is special *)
+(* ================================================================== *)
+Module Witness.
+Local Open Scope N_scope.
+Definition cfg := mkConfig 10 1000 2 1000 true.
+Definition rs0 := [RState rstate0; RVote (1,1)].
+Definition rs1 := [RState (mkRState (Some (1,1)) None None None None); RAppend (1,0) [x61]].
+Definition rs2 := [RState (mkRState (Some (1,1)) (Some (1,0)) None None None); RCommit (1,0)].
+Definition f0 := mkFile 0 (encs rs0) 0.
+Definition f1 := mkFile (file_end f0) (encs rs1) 0.
+Definition f2 := mkFile (file_end f1) (encs rs2) 0.
+Definition is_ok (r : open_res) : bool := match r with OpenOk _ => true | OpenErr _ _ => false end.
+
+Lemma wf_small a c : (a < 100 -> c < 100 -> wf_pair (a, c))%N.
+Proof. unfold wf_pair, wf_u64. cbn [fst snd]. assert (100 < 2 ^ 64)%N by reflexivity. lia. Qed.
+
+Lemma clean_image : clean_files ([f0] ++ f1 :: [f2]).
+Proof.
+  split.
+  - repeat constructor.
+    + exists rs0. split; [discriminate|]. split; [|reflexivity].
+      repeat constructor; cbn; auto using wf_small; apply wf_small; lia.
+    + exists rs1. split; [discriminate|]. split; [|reflexivity].
+      repeat constructor; cbn; auto; try (apply wf_small; lia).
+    + exists rs2. split; [discriminate|]. split; [|reflexivity].
+      repeat constructor; cbn; auto; try (apply wf_small; lia).
+  - cbn. auto.
+Qed.
+
+Lemma complete_opens : is_ok (open_dir cfg ([f0] ++ f1 :: [f2])) = true.
+Proof. vm_compute. reflexivity. Qed.
+
+(* the theorem applies: removing the middle chunk gives the gap error *)
+Lemma middle_missing_refused : open_dir cfg [f0; f2] = OpenErr EGap [f0; f2].
+Proof.
+  pose proof complete_opens as H.
+  destruct (open_dir cfg ([f0] ++ f1 :: [f2])) as [y|e d] eqn:E; [|discriminate H].
+  exact (C09_middle_missing_of_open cfg [f0] f1 [f2] y clean_image
+           ltac:(discriminate) ltac:(discriminate) E).
+Qed.
+
+(* [pre <> []] is necessary: a missing FIRST chunk is not detected (it looks
+   like a purged chunk), the open succeeds on the remaining chunks *)
+Lemma first_missing_not_detected : is_ok (open_dir cfg [f1; f2]) = true.
+Proof. vm_compute. reflexivity. Qed.
+End Witness.
+
 Print Assumptions C09_single_byte_same_length.
 Print Assumptions C09_single_byte_outcomes.
 Print Assumptions C09_checksum_field.
 Print Assumptions C09_fixed_fields.
 Print Assumptions C09_append_fixed_fields.
+Print Assumptions C09_open_refuses_chunk.
+Print Assumptions C09_open_refuses.
+Print Assumptions C09_open_refuses_record.
+Print Assumptions clean_files_sorted.
+Print Assumptions C09_middle_missing.
+Print Assumptions C09_middle_missing_refused.
+Print Assumptions C09_middle_missing_of_open.
+Print Assumptions Witness.middle_missing_refused.
